@@ -78,7 +78,12 @@ class World(SWorld):
         if self.value(k) == b"":
             return "unreadable"
         try:
-            proof = SparseMerkleProof(k, self.smt.get(k), self.smt.branch(k))
+            mine = list(self.smt.branch(k))  # the caller's own scratch list
+            proof = SparseMerkleProof(k, self.smt.get(k), mine if cmd.get("aslist", 1) else tuple(mine))
+            # ... which the caller goes on using for something else
+            for i in range(len(mine)):
+                mine[i] = b"\xee" * 32
+            del mine[len(mine) // 2 :]
         except Exception as e:
             self.viol("tracker-value", f"creating a tracker for readable key {k.hex()} raised {e!r}")
         tr = Tracker()
@@ -129,8 +134,9 @@ class World(SWorld):
         same = k == tr.key
         bp = None if same else self.first_diff(k, tr.key)
         must_reject = (not same) and len(cut) <= bp
+        offered = list(cut) if (self.ev + len(cut)) % 2 else tuple(cut)
         try:
-            p.update(k, v, cut)
+            p.update(k, v, offered)
             status = "ok"
         except ValidationError:
             status = "rejected"
@@ -139,6 +145,8 @@ class World(SWorld):
                 self.viol("short-accepted", f"a hash list of length {len(cut)} (first differing bit {bp}) was not refused with ValidationError but raised {e!r}")
             self.viol("sufficient-rejected", f"update with a hash list of length {len(cut)} (first differing bit {bp}) raised {e!r}")
         st = self.st
+        if isinstance(offered, list):
+            offered.clear()  # the message buffer is reused by the caller
         if status == "rejected":
             if not must_reject:
                 self.viol("sufficient-rejected", f"update for key {k.hex()} with {len(cut)} hashes was rejected although only {0 if same else bp + 1} are needed")
